@@ -310,6 +310,8 @@ def _is_tie(t, rate):
 
 
 def finding_match(case, r, kind, why, findings):
+    if not why.startswith("oracle"):
+        return None
     for f in findings:
         pred = f.get("matcher", {}).get("pred")
         if pred == "insert_delete_at_tie_odd_length" and case["op"] == "insdel":
